@@ -338,7 +338,7 @@ func AddSharedJobs(p *Plan) {
 	}
 }
 
-const layoutBound = "memory layout: the operators of the instance-memory table applied to the same logical operands handed over as one operand at a time as a view into a larger tensor (at an offset; with gaps along the last or the second axis; a column of a matrix) and as a lazily transposed matrix: same results as for plain operands or a refusal, never a panic, operands left as they were (all float/bool elements symbolic, exact real arithmetic); 43 (operator, operand, layout) triples for which the unchanged tree already answers differently are left out (listed in DESIGN 8.3)"
+const layoutBound = "memory layout: the operators of the instance-memory table applied to the same logical operands handed over as one operand at a time as a view into a larger tensor (at an offset; with gaps along the last or the second axis; a column of a matrix) and as a lazily transposed matrix: same results as for plain operands or a refusal, never a panic, operands left as they were (all float/bool elements symbolic, exact real arithmetic); 46 (operator, operand, layout) triples for which the unchanged tree already answers differently are left out (listed in DESIGN 8.3)"
 
 // layoutSensitive: (operator, layout) pairs for which the UNCHANGED tree already answers differently than for plain
 // operands (wrong values or a panic; mostly gorgonia routines that read a view's backing array without regard to
@@ -346,6 +346,7 @@ const layoutBound = "memory layout: the operators of the instance-memory table a
 // their logical meaning and does not reproduce that behaviour, so these pairs cannot be decided here; they are
 // listed in DESIGN.md (section 8.3) as observations.
 var layoutSensitive = map[string]bool{
+	"Concat:0:gaps": true, "Concat:1:gaps": true, "Concat:2:gaps": true,
 	"ReduceMax:0:column": true, "ReduceMin:0:column": true, "Softmax:0:column": true, "LogSoftmax:0:column": true,
 	"Sub:0:gaps": true, "Add:0:gaps": true, "Add:1:gaps": true, "Sub:1:gaps": true,
 	"Conv:1:mid": true, "ReduceMax:0:mid": true, "ReduceMin:0:mid": true, "Shape:0:mid": true, "Softmax:0:mid": true, "Sub:0:mid": true, "LogSoftmax:0:mid": true,
